@@ -39,6 +39,7 @@ Fam(e) == IF Op(e) \in {"keyswitch", "keyswitch_assign"} THEN "ks"
           ELSE IF Op(e) = "pack" THEN "pack"
           ELSE IF Op(e) \in {"lwe_keyswitch", "lwe_from_glwe", "glwe_from_lwe"} THEN "lwe"
           ELSE IF Op(e) = "sample_extract" THEN "extract"
+          ELSE IF Op(e) = "lwe_encdec" THEN "lweenc"
           ELSE "auto"
 \* representative input (layout only) for the bound
 Rep(e) == IF Op(e) = "pack" THEN [e EXCEPT !.a = e.a.cts[1]] ELSE e
@@ -86,7 +87,7 @@ Bound(e, res) ==
              per == CallBound(e, x, x) + 6 * (1 + N1(e)) + 2
          IN ToOutUlps(Min(Sat, nodes * per), Bits(x), ob) + TraceBound(e, x, res, LogN(e) - e.gap) + 1
     [] OTHER -> 0
-Meaningful(e, res) == Fam(e) = "extract" \/ Bound(e, res) <= Pow2(OutBits(res)) \div 16
+Meaningful(e, res) == Fam(e) \in {"extract", "lweenc"} \/ Bound(e, res) <= Pow2(OutBits(res)) \div 16
 
 \* ---- sample extraction is structural: body coefficient 0 and the first n mask coefficients, limb by limb
 ExtractOK(e, res) ==
@@ -97,7 +98,24 @@ ExtractOK(e, res) ==
                       /\ \A i \in 1..res.n : res.d[1][j][i + 1] = e.a.d[2][j][i]
        ELSE \A i \in 1..(res.n + 1) : res.d[1][j][i] = 0
 
+\* ---- C01 for LWE: fresh encryption within the configured bound, decryption = phase rounded to the plaintext's precision
+LweEncDecOK(e, res) ==
+  LET ct == e.a
+      K == Bits(ct)
+      M == Pow2(K)
+      ph == LwePhase(ct, e.sk_in)[1]
+      pt == e.key.pt
+      pv == TorusInt(pt.d, pt.b, 1) % Pow2(pt.size * pt.b)
+      want == Rescale(pv, pt.size * pt.b, K)
+      nb == ((e.bound10 * Pow2(e.koff)) + 9) \div 10
+      inexact == IF IsExactRescale(pv, pt.size * pt.b, K) THEN 0 ELSE 1
+      dec == res.pt
+      DK == dec.size * dec.b
+      D == TorusInt(dec.d, dec.b, 1)
+  IN /\ Within(ph, want, M, nb, inexact)
+     /\ TorusShiftOK(D, CMod(ph, M), DK - K, DK, 1)
 FamOK(e, res) ==
+  IF Fam(e) = "lweenc" THEN LweEncDecOK(e, res) ELSE
   IF Fam(e) = "extract" THEN ExtractOK(e, res)
   ELSE LET ob == OutBits(res)
            want == Image(e, ob)
